@@ -168,7 +168,7 @@ def setup_pair(k):
         shutil.copy("/repo/Cargo.lock", repo + "/Cargo.lock")
     sh("git -C %s checkout -q -- ." % repo)
     os.makedirs(ver, exist_ok=True)
-    sh("rsync -a --delete --exclude target --exclude target-rustls --exclude out --exclude .git --exclude seeded --exclude shadow %s/ %s/" % (V, ver))
+    sh("rsync -a --delete --exclude target --exclude 'target-*' --exclude out --exclude .git --exclude seeded --exclude shadow %s/ %s/" % (V, ver))
     os.makedirs(ver + "/out", exist_ok=True)
     return repo, ver
 
